@@ -127,11 +127,18 @@ func init() {
 		if err != nil {
 			panic(err)
 		}
+		// the child's scratch directory is created and removed HERE: the booted application keeps writing to its block
+		// store until the child process is gone
+		dir, err := os.MkdirTemp("", "verif-c19-app-")
+		if err != nil {
+			panic(err)
+		}
+		defer os.RemoveAll(dir)
 		cmd := exec.Command(exe, "-exec")
 		cmd.Stdin = strings.NewReader("C19 appbootchild " + strings.Join(a, " ") + "\n")
 		var out bytes.Buffer
 		cmd.Stdout = &out
-		cmd.Env = os.Environ()
+		cmd.Env = append(os.Environ(), "VERIF_C19_APPDIR="+dir)
 		done := make(chan error, 1)
 		if err := cmd.Start(); err != nil {
 			return "spawn-failed"
@@ -155,13 +162,13 @@ func init() {
 		doms := items(a[3], ",")
 		node := &c19AppNode{head: head, head1: head + 4*interval + conf + 3, ranges: map[string][]string{}}
 		srv := httptest.NewServer(node)
-		dir, err := os.MkdirTemp("", "verif-c19-app-")
-		if err != nil {
-			panic(err)
+		dir := os.Getenv("VERIF_C19_APPDIR")
+		if dir == "" {
+			return "no-scratch-dir" // only meant to be run by `appboot`
 		}
-		defer os.RemoveAll(dir)
 		topologyPath := filepath.Join(dir, "topology.json")
-		if err := topology.NewTopologyStore(topologyPath).StoreTopology(&topology.NetworkTopology{Threshold: 1}); err != nil {
+		var err error
+		if err = topology.NewTopologyStore(topologyPath).StoreTopology(&topology.NetworkTopology{Threshold: 1}); err != nil {
 			panic(err)
 		}
 		dbPath := filepath.Join(dir, "lvldb")
